@@ -25,7 +25,11 @@ BUILD_TARGETS = ["GPVerif.Props.C14", "GPVerif.Model.Variational", "GPVerif.Gen.
 RULE = ("strategy x variational-distribution class x batch pattern (inducing points / parameters / data / kernel "
         "hyper-parameters) x kernel family x mean x jitter (default, 1e-10) x mode (eval: mean+full covariance+KL, "
         "train: mean+variances+KL); every batch element is one case, compared against the exact closed form; "
-        "distinct = distinct (config, batch index, seed-derived parameters); non-trivial = q(u) != p(u), M>=2, n>=2")
+        "distinct = distinct (config, batch index, seed-derived parameters); non-trivial = q(u) != p(u), M>=2, n>=2; "
+        "round 3: closed form from the constructor ARGUMENTS (jitter_val=0.0/0 by constructor and setter incl. cond(Kzz) "
+        "1e5..1e6, learn_inducing_locations=False, explicit mean_init_std=0 with the initialisation path run), and copy "
+        "histories (deepcopy / pickle / torch.save of the whole model, optionally after use, then new values for everything "
+        "the copy or the original owns, both evaluated against their own closed forms)")
 TRUSTED = ["kernel / mean evaluation of gpytorch (the dense Kzz, Kzx, Kxx, mX, mZ are read from the model itself: C05)",
            "mpmath 300-bit Cholesky / symmetric square root used as the *specification* of the irrational primitives "
            "(residual reported exactly by the driver)",
@@ -929,6 +933,34 @@ def max_gap(pairs):
     return max(max([abs(a - b) for ra, rb in zip(X, Y) for a, b in zip(ra, rb)] + [Fraction(0)]) for X, Y in pairs)
 
 
+def gen_check(ctx, drv, desc, what, line, expected):
+    """Run one request of a GENERATED-definitions kind (`BD`, `OG`, `IG`: the `forward` of the batch-decoupled /
+    orthogonally-decoupled / grid strategy as translated from the source) and compare its leading replies (exact rationals,
+    gap < 1e-40) with the values of the hand-written, theorem-backed model (`expected`: matrices or scalars as Fractions).  A difference is a
+    broken tie (`gen_*_eq_model` no longer describes the source), never by itself a defect of gpytorch.  The fallback
+    driver (hand-written model only) does not know these kinds: the check is then skipped and counted."""
+    try:
+        rep = drv.ask(line)
+    except DriverFail as e:
+        ctx.count(f"generated-check-skipped:{what}")
+        return None
+    for k, ex in enumerate(expected):
+        if ex is None:
+            continue
+        got = rep[k]
+        exm = ex if isinstance(ex, list) else [[Fraction(ex)]]
+        same_shape = len(got) == len(exm) and all(len(a) == len(b) for a, b in zip(got, exm))
+        gap = float(max_gap(((got, exm),))) if same_shape else "shape"
+        # (irrational primitives reach the driver rounded to 2⁻²⁴⁰: code path and closed form agree to ~1e-70, not exactly)
+        if not same_shape or gap > 1e-40:
+            ctx.broke("correspondence", f"generated-{what}-vs-model",
+                      f"{desc}: reply {k} of the generated {what} definitions differs from the hand-written model by {gap}")
+            break
+    else:
+        ctx.count(f"generated-check:{what}")
+    return rep
+
+
 def exact_whitened(ctx, drv, desc, kzz, kzx, kxx, mx, eps, epsx, m, S, hasS, root="chol", trace=False):
     """Closed form for a whitened strategy; L = Cholesky factor (or symmetric root for CIQ) of K̃."""
     kt = add_jit(kzz, eps)
@@ -967,6 +999,14 @@ def exact_unwhitened(ctx, drv, desc, kzz, kzx, kxx, mx, mz, eps, epsp, m, S, R, 
         ctx.broke("correspondence", "model-codepath-vs-closedform",
                   f"{desc}: generated unwhitened code path vs closed form gap {float(max_gap(((cmean, fmean), (ccov, fcov))))}, "
                   f"|L L^T - cholesky argument| {float(sc(rep[13]))}")
+    if hasS and len(rep) > 16 and (rep[16] != rep[0] or float(max_gap(((rep[15], rep[5]),))) > 1e-40):
+        # (the generated branch solves with (L Lᵀ)⁻¹, L the 2⁻²⁴⁰-rounded factor; the model with the exact K̃⁻¹)
+        # the TRAINING-mode branch as generated from the source (root term + clamped diagonal) vs `unwhitenedTrainVar`
+        ctx.broke("correspondence", "generated-unwhitened-train-branch-vs-model",
+                  f"{desc}: generated training-mode variances / mean differ from the hand-written model by "
+                  f"{float(max_gap(((rep[15], rep[5]), (rep[16], rep[0]))))}")
+    elif hasS and len(rep) > 16:
+        ctx.count("generated-check:unwhitened-train")
     klr, detS, detP, quad = rep[6], rep[7], rep[8], rep[9]
     kl = kl_mvn(sc(klr), sc(detS), sc(detP)) if hasS else kl_delta(sc(quad), sc(detP), Mi)
     kl_code = None
@@ -1122,6 +1162,16 @@ def run_batch_decoupled(ctx, drv, cfg, rng, replay_only=None):
             continue
         exm = exact_whitened(ctx, drv, desc, *parts[0], eps, eps, m, S, hasS)
         exv = exact_whitened(ctx, drv, desc, *parts[1], eps, eps, m, S, hasS)
+        # `forward` as generated from the source: mean from inducing set 0, covariance from inducing set 1
+        Ls = [hp_chol(add_jit(parts[k_][0], eps)) for k_ in (0, 1)]
+        bdrep = gen_check(ctx, drv, desc, "batch-decoupled",
+                          "BD %d %d %s %s %s %s %s %s %s %s %s %s %s %s %s" % (
+                              M, n, toks(parts[0][0]), toks(parts[1][0]), toks(parts[0][1]), toks(parts[1][1]),
+                              toks(parts[0][2]), toks(parts[1][2]), toks(parts[0][3]), toks(parts[1][3]), C.rat_str(eps),
+                              toks(Ls[0]), toks(Ls[1]), toks(m), toks(S)), [exm["mean"], exv["cov"]])
+        if bdrep is not None and max(float(sc(bdrep[2])), float(sc(bdrep[3]))) > 1e-60:
+            ctx.broke("correspondence", "generated-batch-decoupled-cholesky-argument",
+                      f"{desc}: |L Lᵀ − generated Cholesky argument| = {float(sc(bdrep[2]))}, {float(sc(bdrep[3]))}")
         mp = _mp()
         # KL = KL(Delta(m) || N(0,I)) + KL(N(0,S) || N(0,I))
         trS = sum(S[i][i] for i in range(M))
@@ -1162,7 +1212,7 @@ def run_orth(ctx, drv, cfg, rng, replay_only=None):
 
     class GP(gpytorch.models.ApproximateGP):
         def __init__(self):
-            base = base_cls(self, Z, bdist, learn_inducing_locations=True, **jkw)
+            base = base_cls(self, Z, bdist, learn_inducing_locations=bool(cfg.get("learn_Z", True)), **jkw)
             super().__init__(V.OrthogonallyDecoupledVariationalStrategy(base, Zm, mdist, **jkw))
             self.mean_module = gpytorch.means.ConstantMean()
             self.covar_module = gpytorch.kernels.ScaleKernel(gpytorch.kernels.RBFKernel() if cfg.get("kernel") != "matern"
@@ -1194,8 +1244,10 @@ def run_orth(ctx, drv, cfg, rng, replay_only=None):
                          out.variance.detach().clone(), vs.kl_divergence().detach().clone())
     eps_b = eps_o = jitter_of_args(cfg.get("jitter"))      # the same argument is passed to both constructors
     # base q(f) at [x; Zm]
-    xz = torch.cat([x, vs.inducing_points.detach()], dim=-2)
-    Kzz, Kzx, Kxx, mX, mZ = joint_blocks(model, base.inducing_points.detach(), xz, M)
+    # (inducing sets: the constructor ARGUMENTS, unless the copy history of the harness itself replaced them)
+    Zm_e, Z_e = (vs.inducing_points.detach(), base.inducing_points.detach()) if cfg.get("copy") else (Zm, Z)
+    xz = torch.cat([x, Zm_e], dim=-2)
+    Kzz, Kzx, Kxx, mX, mZ = joint_blocks(model, Z_e, xz, M)
     kzz, kzx, kxx = sym_lower(fmat(Kzz)), fmat(Kzx), fmat(Kxx)
     mx, mz = fcol(mX), fcol(mZ)
     kappa = kappa_of(kzz, eps_b)
@@ -1206,7 +1258,8 @@ def run_orth(ctx, drv, cfg, rng, replay_only=None):
         if replay_only is not None and list(idx) != list(replay_only):
             continue
         desc = f"OrthogonallyDecoupledVariationalStrategy(base={cfg['base']}/{cfg['dist']}) pb={pb} M={M} Mm={Mm} n={n} " \
-               f"d={d} jitter={cfg.get('jitter')} idx={list(idx)}" + (f" copy={cfg['copy']}" if cfg.get("copy") else "")
+               f"d={d} jitter={cfg.get('jitter')} idx={list(idx)}" + (f" copy={cfg['copy']}" if cfg.get("copy") else "") \
+               + (f" learn_Z={cfg['learn_Z']}" if "learn_Z" in cfg else "")
         m, S, R, hasS = exact_dist(drv, bdist, idx)
         mm = fcol(bget(mdist.variational_mean.detach(), idx, 1))
         if whitened:
@@ -1225,6 +1278,11 @@ def run_orth(ctx, drv, cfg, rng, replay_only=None):
             # eval: the prior of the mean inducing values carries jitter_val; train: the cached one carries none
             eo = eps_o if mode == "eval" else Fraction(0)
             fmean, fcov, extra = drv.ask(f"O {n} {Mm} {toks(mux)} {toks(Cxx)} {toks(Cxz)} {toks(Czz)} {C.rat_str(eo)} {toks(mm)}")
+            # `forward` / `prior_distribution` / `kl_divergence` as generated from the source
+            gen_check(ctx, drv, desc, f"orth-{mode}",
+                      f"OG {n} {Mm} {toks(mux)} {toks(mu[n:])} {toks(Cxx)} {toks(Cxz)} {toks(Czz)} {C.rat_str(eps_o)} {toks(mm)}",
+                      [fmean, fcov, sc(extra) / 2 if mode == "eval" else None, sc(extra) / 2 if mode == "train" else None,
+                       mu[n:], add_jit(Czz, eps_o), Czz])
             klx = exb["kl"] + float(sc(extra)) / 2
             kl_code = None
             if not whitened and mode == "eval" and exb.get("kl_code") is not None:
@@ -1343,6 +1401,10 @@ def run_grid(ctx, drv, cfg, rng, replay_only=None):
             for k in range(iib.shape[-1]):
                 W[i][int(iib[i, k])] += F(float(ivb[i, k]))
         fmean, fcov = drv.ask(f"I {n} {M} {toks(W)} {toks(m)} {toks(S)}")
+        # `forward` / `prior_distribution` as generated from the source
+        gen_check(ctx, drv, desc, "grid",
+                  f"IG {n} {M} {toks(W)} {toks(m)} {toks(S)} {toks(Kzz)} {toks(mz)} {C.rat_str(jitter_of_args(None))} "
+                  f"{C.rat_str(add_jitter_default())}", [fmean, fcov, mz, add_jit(Kzz, epsp)])
         klr, detS, detP, quad = drv.ask(f"K {M} {toks(add_jit(Kzz, epsp))} {toks(m)} {toks(mz)} {toks(S)} {hasS}")
         klx = kl_mvn(sc(klr), sc(detS), sc(detP))
         key = f"GridInterpolationVariationalStrategy:{cfg['dist'].replace('VariationalDistribution', '')}"
@@ -1805,7 +1867,8 @@ def boundary_configs(ctx):
                                     "n": rng.randint(2, 4), "d": 1, "kernel": "rbf", "mean": "const", "jitter": 0.0}))
     for base in two:
         out.append(("orth", {"base": base, "dist": DISTS[0], "pb": [], "M": rng.randint(2, 4), "Mm": rng.randint(2, 4),
-                             "n": rng.randint(2, 4), "d": 1, "kernel": "rbf", "jitter": 0.0}))
+                             "n": rng.randint(2, 4), "d": 1, "kernel": "rbf", "jitter": 0.0,
+                             "learn_Z": base.startswith("Unwh")}))
     out.append(("ciq", {"strategy": "CiqVariationalStrategy", "dist": DISTS[0], "pattern": "none", "M": rng.randint(2, 4),
                         "n": rng.randint(2, 4), "d": 1, "kernel": "rbf", "mean": "const", "jitter": 0.0}))
     for kind, lj, lz in (("lmc", 0.0, False), ("lmc", 0, True), ("indep", None, False)):
